@@ -65,10 +65,10 @@ pub(crate) enum PKind {
 }
 
 pub(crate) struct ParkedOp {
-    worker: usize,
-    kind: PKind,
-    op: u32,
-    step: usize,
+    pub(crate) worker: usize,
+    pub(crate) kind: PKind,
+    pub(crate) op: u32,
+    pub(crate) step: usize,
 }
 
 enum OpOut {
@@ -109,9 +109,17 @@ pub struct Interp<'a> {
     pub(crate) rest_after_event: bool,
     pub(crate) events_for_rest: u32,
     pub(crate) nt: bool,
+    pub(crate) c03_nt: bool,
+    pub(crate) c06_close_step: Option<usize>,
     // C07 ideal model
     pub c07: crate::c07::Model,
     pub(crate) n_steps_run: usize,
+}
+
+impl GetSlot {
+    pub(crate) fn is_inside(&self) -> bool {
+        matches!(self.state, GState::Pending | GState::OnWorker)
+    }
 }
 
 fn perr(e: &PoolError<TErr>) -> String {
@@ -136,7 +144,11 @@ impl<'a> Interp<'a> {
         let world = World::new(&case.cfg, &case.script);
         let sink_world = world.clone();
         let sched = Sched::new(Arc::new(move |op, label| {
-            sink_world.w().log.push(Ev::Point { op, label });
+            let mut w = sink_world.w();
+            w.log.push(Ev::Point { op, label });
+            if label == "get.permit" {
+                w.admitted.push(op);
+            }
         }));
         let build_op = world.w().new_op(OpKind::Build);
         let mut it = Interp {
@@ -167,6 +179,8 @@ impl<'a> Interp<'a> {
             rest_after_event: false,
             events_for_rest: 0,
             nt: false,
+            c03_nt: false,
+            c06_close_step: None,
             c07: crate::c07::Model::new(case.cfg.max_size as usize),
             n_steps_run: 0,
         };
@@ -196,7 +210,7 @@ impl<'a> Interp<'a> {
         it
     }
 
-    fn fail(&mut self, oracle: &str, detail: String) {
+    pub(crate) fn fail(&mut self, oracle: &str, detail: String) {
         if self.violation.is_none() {
             let trace = self.trace();
             self.violation = Some(Violation {
@@ -208,25 +222,25 @@ impl<'a> Interp<'a> {
         }
     }
 
-    fn trace(&self) -> Vec<String> {
+    pub(crate) fn trace(&self) -> Vec<String> {
         let w = self.world.w();
         let n = w.log.len();
         let start = n.saturating_sub(400);
         w.log[start..].iter().map(|e| format!("{:?}", e)).collect()
     }
 
-    fn armed(&self, props: &[&str]) -> bool {
+    pub(crate) fn armed(&self, props: &[&str]) -> bool {
         props.contains(&self.ctx.prop.as_str())
     }
 
     /// report a deviation that witnesses a violation of any of `props`
-    fn flag(&mut self, oracle: &str, props: &[&str], detail: String) {
+    pub(crate) fn flag(&mut self, oracle: &str, props: &[&str], detail: String) {
         if self.armed(props) {
             self.fail(oracle, detail);
         }
     }
 
-    fn drain_flags(&mut self) {
+    pub(crate) fn drain_flags(&mut self) {
         let flags: Vec<Flag> = std::mem::take(&mut self.world.w().flags);
         for f in flags {
             if self.armed(f.props) {
@@ -235,11 +249,11 @@ impl<'a> Interp<'a> {
         }
     }
 
-    fn note(&self, s: String) {
+    pub(crate) fn note(&self, s: String) {
         self.world.w().log.push(Ev::Note(s));
     }
 
-    fn label(&mut self, s: &str) {
+    pub(crate) fn label(&mut self, s: &str) {
         self.labels.push(s.to_string());
     }
 
@@ -247,11 +261,11 @@ impl<'a> Interp<'a> {
         self.pool.as_ref().map(|p| p.verif_snapshot())
     }
 
-    fn status(&self) -> Option<Status> {
+    pub(crate) fn status(&self) -> Option<Status> {
         self.pool.as_ref().map(|p| p.status())
     }
 
-    fn pending_gets(&self) -> Vec<usize> {
+    pub(crate) fn pending_gets(&self) -> Vec<usize> {
         self.gets
             .iter()
             .enumerate()
@@ -261,7 +275,7 @@ impl<'a> Interp<'a> {
     }
 
     /// (waiting for a slot, inside a manager / hook call) among pending gets
-    fn classify_pending(&self) -> (Vec<usize>, Vec<usize>) {
+    pub(crate) fn classify_pending(&self) -> (Vec<usize>, Vec<usize>) {
         let w = self.world.w();
         let mut waiting = vec![];
         let mut gated = vec![];
@@ -277,7 +291,7 @@ impl<'a> Interp<'a> {
         (waiting, gated)
     }
 
-    fn inside_get(&self) -> usize {
+    pub(crate) fn inside_get(&self) -> usize {
         self.gets
             .iter()
             .filter(|g| matches!(g.state, GState::Pending | GState::OnWorker))
@@ -289,7 +303,7 @@ impl<'a> Interp<'a> {
                 .count()
     }
 
-    fn effective_limit(&self) -> usize {
+    pub(crate) fn effective_limit(&self) -> usize {
         if self.close_done {
             0
         } else {
@@ -297,7 +311,7 @@ impl<'a> Interp<'a> {
         }
     }
 
-    fn quiescent(&self) -> bool {
+    pub(crate) fn quiescent(&self) -> bool {
         self.parked.is_empty()
             && !self
                 .gets
@@ -347,7 +361,7 @@ impl<'a> Interp<'a> {
         }
     }
 
-    fn do_step(&mut self, s: Step) {
+    pub(crate) fn do_step(&mut self, s: Step) {
         if s.pause().is_some() {
             self.any_pause = true;
             self.world.w().idle_ref_exact = false;
@@ -410,7 +424,7 @@ impl<'a> Interp<'a> {
         }
     }
 
-    fn open_gate(&mut self, gate: usize) {
+    pub(crate) fn open_gate(&mut self, gate: usize) {
         let waker = {
             let mut w = self.world.w();
             w.gates[gate].open = true;
@@ -422,11 +436,11 @@ impl<'a> Interp<'a> {
         }
     }
 
-    fn new_op(&self, kind: OpKind) -> u32 {
+    pub(crate) fn new_op(&self, kind: OpKind) -> u32 {
         self.world.w().new_op(kind)
     }
 
-    fn start_get(&mut self, zero_wait: bool, pause: Option<u8>) {
+    pub(crate) fn start_get(&mut self, zero_wait: bool, pause: Option<u8>) {
         let Some(pool) = self.pool.clone() else { return };
         if self.pending_gets().len() + self.gets.iter().filter(|g| g.state == GState::OnWorker).count() >= 6 {
             return;
@@ -464,7 +478,7 @@ impl<'a> Interp<'a> {
         self.poll_get(g, pause);
     }
 
-    fn poll_get(&mut self, g: usize, pause: Option<u8>) {
+    pub(crate) fn poll_get(&mut self, g: usize, pause: Option<u8>) {
         let op = self.gets[g].op;
         let Some(mut fut) = self.gets[g].fut.take() else { return };
         let flag = self.gets[g].flag.clone();
@@ -513,7 +527,7 @@ impl<'a> Interp<'a> {
         }
     }
 
-    fn poll_pending(&mut self, g: usize) {
+    pub(crate) fn poll_pending(&mut self, g: usize) {
         self.gets[g].state = GState::Pending;
         if self.gets[g].zero_wait {
             // a zero-wait call may only be pending inside a manager / hook call
@@ -528,7 +542,7 @@ impl<'a> Interp<'a> {
         }
     }
 
-    fn handle_run(&mut self, r: Result<Run, vcore::sched::Watchdog>, kind: PKind, op: u32) {
+    pub(crate) fn handle_run(&mut self, r: Result<Run, vcore::sched::Watchdog>, kind: PKind, op: u32) {
         match r {
             Err(_) => {
                 self.inconclusive = Some(format!(
@@ -551,13 +565,13 @@ impl<'a> Interp<'a> {
         }
     }
 
-    fn resume(&mut self, i: usize, pause: Option<u8>) {
+    pub(crate) fn resume(&mut self, i: usize, pause: Option<u8>) {
         let p = self.parked.remove(i);
         let r = self.sched.resume(p.worker, pause.map(|k| k as u32));
         self.handle_run(r, p.kind, p.op);
     }
 
-    fn complete(&mut self, kind: PKind, op: u32, res: vcore::sched::OpResult) {
+    pub(crate) fn complete(&mut self, kind: PKind, op: u32, res: vcore::sched::OpResult) {
         match (kind, res) {
             (PKind::Poll(g), Ok(b)) => match *b.downcast::<OpOut>().expect("opout") {
                 OpOut::Poll(Some(fut), None) => {
@@ -608,7 +622,7 @@ impl<'a> Interp<'a> {
         }
     }
 
-    fn op_panicked(&mut self, what: &str, pk: PanicKind) {
+    pub(crate) fn op_panicked(&mut self, what: &str, pk: PanicKind) {
         self.flag(
             "pool-operation-panicked",
             &["C02", "C06", "C07", "C09", "C11", "C01", "C03"],
@@ -616,11 +630,13 @@ impl<'a> Interp<'a> {
         );
     }
 
-    fn get_panicked(&mut self, g: usize, pk: PanicKind) {
+    pub(crate) fn get_panicked(&mut self, g: usize, pk: PanicKind) {
+        self.c07_get_released(g);
         self.gets[g].state = GState::Done(GetEnd::Panicked);
         self.saw_fault_get = true;
         match pk {
             PanicKind::Injected => {
+                self.c03_nt = true;
                 self.label("get:injected-panic");
             }
             PanicKind::Foreign(msg) => {
@@ -634,7 +650,7 @@ impl<'a> Interp<'a> {
         self.validate_get(g, &GetEnd::Panicked);
     }
 
-    fn get_done(&mut self, g: usize, res: GetResult) {
+    pub(crate) fn get_done(&mut self, g: usize, res: GetResult) {
         let op = self.gets[g].op;
         match res {
             Ok(obj) => {
@@ -642,6 +658,12 @@ impl<'a> Interp<'a> {
                 let mv = MetricsView::from(deadpool::managed::Object::metrics(&obj));
                 self.gets[g].state = GState::Done(GetEnd::Ok(id));
                 self.label("get:ok");
+                {
+                    let mut w = self.world.w();
+                    if w.c09_took {
+                        w.c09_take_then_get = true;
+                    }
+                }
                 {
                     let mut w = self.world.w();
                     let live = w.live();
@@ -715,6 +737,7 @@ impl<'a> Interp<'a> {
                 self.c07_admitted(g);
             }
             Err(e) => {
+                self.c07_get_released(g);
                 let s = perr(&e);
                 self.label(&format!("get:{}", s.split('(').next().unwrap_or("")));
                 if !matches!(e, PoolError::Closed | PoolError::Timeout(TimeoutType::Wait)) {
@@ -727,9 +750,10 @@ impl<'a> Interp<'a> {
         }
     }
 
-    fn cancel_get(&mut self, g: usize, pause: Option<u8>) {
+    pub(crate) fn cancel_get(&mut self, g: usize, pause: Option<u8>) {
         let op = self.gets[g].op;
         let Some(fut) = self.gets[g].fut.take() else { return };
+        self.c07_get_released(g);
         self.saw_cancel = true;
         // where was it suspended?
         let at = {
@@ -740,6 +764,9 @@ impl<'a> Interp<'a> {
             }
         };
         self.labels.push(format!("cancel-at:{}", at));
+        if at != "SlotWait" || self.inside_get() > 0 || !self.held.is_empty() {
+            self.c03_nt = true;
+        }
         match pause {
             None => {
                 let r = self.sched.run_inline(op, move || drop(fut));
@@ -760,12 +787,12 @@ impl<'a> Interp<'a> {
         }
     }
 
-    fn cancel_done(&mut self, g: usize) {
+    pub(crate) fn cancel_done(&mut self, g: usize) {
         self.gets[g].state = GState::Done(GetEnd::Cancelled);
         self.validate_get(g, &GetEnd::Cancelled);
     }
 
-    fn return_obj(&mut self, i: usize, pause: Option<u8>) {
+    pub(crate) fn return_obj(&mut self, i: usize, pause: Option<u8>) {
         let h = self.held.remove(i);
         let id = h.id;
         let op = self.new_op(OpKind::Return);
@@ -778,13 +805,29 @@ impl<'a> Interp<'a> {
         }
         let obj = h.obj;
         let closed_before = self.close_done;
+        self.c07_release_begins(1);
         match pause {
             None => {
+                let before = if self.parked.is_empty() { self.snapshot() } else { None };
                 let r = self.sched.run_inline(op, move || drop(obj));
                 if let Err(pk) = r {
                     self.op_panicked("return", pk);
                 }
                 self.return_done(id, closed_before);
+                // the surplus is discarded as it comes back
+                if let Some(b) = before {
+                    let kept = !self.world.w().objs[id as usize].destroyed;
+                    if b.size > b.max_size && kept && !b.closed {
+                        self.flag(
+                            "surplus-kept-on-return",
+                            &["C07"],
+                            format!("object {} was returned while size exceeded max_size ({:?}) and was kept", id, b),
+                        );
+                    }
+                    if b.size > b.max_size {
+                        self.label("return:while-over-limit");
+                    }
+                }
             }
             Some(k) => {
                 let f: Box<dyn FnOnce() -> Box<dyn Any + Send> + Send> = Box::new(move || {
@@ -797,7 +840,7 @@ impl<'a> Interp<'a> {
         }
     }
 
-    fn return_done(&mut self, id: u32, closed_before: bool) {
+    pub(crate) fn return_done(&mut self, id: u32, closed_before: bool) {
         self.label("return");
         let mut w = self.world.w();
         let dead = w.pool_dead;
@@ -825,7 +868,7 @@ impl<'a> Interp<'a> {
         }
     }
 
-    fn take_obj(&mut self, i: usize, pause: Option<u8>) {
+    pub(crate) fn take_obj(&mut self, i: usize, pause: Option<u8>) {
         let h = self.held.remove(i);
         let id = h.id;
         let op = self.new_op(OpKind::Take);
@@ -838,6 +881,7 @@ impl<'a> Interp<'a> {
         }
         let before = self.snapshot();
         let obj = h.obj;
+        self.c07_release_begins(1);
         match pause {
             None => {
                 let r = self.sched.run_inline(op, move || deadpool::managed::Object::take(obj));
@@ -846,6 +890,13 @@ impl<'a> Interp<'a> {
                         self.take_done(id, o);
                         // sequential effect on the books
                         if let (Some(b), Some(a)) = (before, self.snapshot()) {
+                            if self.parked.is_empty() && b.size > b.max_size && a.permits > b.permits && !b.closed {
+                                self.flag(
+                                    "take-released-surplus-slot",
+                                    &["C07"],
+                                    format!("Object::take freed a slot although size exceeded max_size: {:?} -> {:?}", b, a),
+                                );
+                            }
                             if self.parked.is_empty() && (a.size + 1 != b.size || a.users + 1 != b.users) {
                                 self.flag(
                                     "take-books",
@@ -872,9 +923,10 @@ impl<'a> Interp<'a> {
         }
     }
 
-    fn take_done(&mut self, id: u32, obj: Obj) {
+    pub(crate) fn take_done(&mut self, id: u32, obj: Obj) {
         self.label("take");
         self.events_for_rest += 1;
+        self.world.w().c09_took = true;
         {
             let mut w = self.world.w();
             w.taking -= 1;
@@ -894,7 +946,7 @@ impl<'a> Interp<'a> {
         self.out.push(obj);
     }
 
-    fn retain(&mut self, pred: Pred, pause: Option<u8>) {
+    pub(crate) fn retain(&mut self, pred: Pred, pause: Option<u8>) {
         let Some(pool) = self.pool.clone() else { return };
         let op = self.new_op(OpKind::Retain);
         let world = self.world.clone();
@@ -936,7 +988,7 @@ impl<'a> Interp<'a> {
         }
     }
 
-    fn idle_order(&self) -> Vec<u32> {
+    pub(crate) fn idle_order(&self) -> Vec<u32> {
         let mut v = vec![];
         if let Some(p) = &self.pool {
             p.verif_idle(|o, _| v.push(o.id));
@@ -944,7 +996,7 @@ impl<'a> Interp<'a> {
         v
     }
 
-    fn retain_done(
+    pub(crate) fn retain_done(
         &mut self,
         op: u32,
         rr: RetainResult<Obj>,
@@ -1027,12 +1079,12 @@ impl<'a> Interp<'a> {
         self.out.extend(rr.removed);
     }
 
-    fn resize(&mut self, n: usize, pause: Option<u8>) {
+    pub(crate) fn resize(&mut self, n: usize, pause: Option<u8>) {
         let Some(pool) = self.pool.clone() else { return };
         let op = self.new_op(OpKind::Resize);
         self.resize_started = true;
         self.events_for_rest += 1;
-        let before = if self.parked.is_empty() { self.snapshot() } else { None };
+        let before = if self.quiescent() { self.snapshot() } else { None };
         match pause {
             None => {
                 let r = self.sched.run_inline(op, move || pool.resize(n));
@@ -1052,7 +1104,7 @@ impl<'a> Interp<'a> {
         }
     }
 
-    fn resize_done(&mut self, n: usize, before: Option<ManagedSnapshot>) {
+    pub(crate) fn resize_done(&mut self, n: usize, before: Option<ManagedSnapshot>) {
         self.label("resize");
         let after = self.snapshot();
         if self.close_done {
@@ -1092,7 +1144,7 @@ impl<'a> Interp<'a> {
                     );
                 }
                 // idle objects in excess of n have been released
-                if a.size > n && a.idle > 0 && self.parked.is_empty() {
+                if a.size > n && a.idle > 0 && before.is_some() {
                     self.c07_idle_surplus(n, a);
                 }
             }
@@ -1101,9 +1153,16 @@ impl<'a> Interp<'a> {
         self.c07_resized(n, b, a);
     }
 
-    fn close(&mut self, pause: Option<u8>) {
+    pub(crate) fn close(&mut self, pause: Option<u8>) {
         let Some(pool) = self.pool.clone() else { return };
         let op = self.new_op(OpKind::Close);
+        if !self.close_started {
+            let (waiting, _) = self.classify_pending();
+            let idle = self.snapshot().map(|s| s.idle).unwrap_or(0);
+            if pause.is_some() || !self.parked.is_empty() || !waiting.is_empty() || idle > 0 {
+                self.c06_close_step = Some(self.step);
+            }
+        }
         self.close_started = true;
         self.events_for_rest += 1;
         match pause {
@@ -1125,7 +1184,7 @@ impl<'a> Interp<'a> {
         }
     }
 
-    fn close_finished(&mut self) {
+    pub(crate) fn close_finished(&mut self) {
         self.label("close");
         if !self.close_done {
             self.close_done = true;
@@ -1152,7 +1211,7 @@ impl<'a> Interp<'a> {
         }
     }
 
-    fn drop_pool(&mut self) {
+    pub(crate) fn drop_pool(&mut self) {
         if !self.parked.is_empty()
             || self
                 .gets
@@ -1175,7 +1234,7 @@ impl<'a> Interp<'a> {
     // --------------------------------------------------------------- monitors
 
     /// C04 / C13: the calls made by get #g against its result
-    fn validate_get(&mut self, g: usize, end: &GetEnd) {
+    pub(crate) fn validate_get(&mut self, g: usize, end: &GetEnd) {
         let op = self.gets[g].op;
         let cfg = &self.case.cfg;
         let (npc, npr, npo) = (cfg.post_create.len(), cfg.pre_recycle.len(), cfg.post_recycle.len());
@@ -1413,7 +1472,7 @@ impl<'a> Interp<'a> {
     }
 
     /// checks that must hold at every step and at every park (operations in progress)
-    fn check_always(&mut self, at: &str) {
+    pub(crate) fn check_always(&mut self, at: &str) {
         self.drain_flags();
         let max = self.case.cfg.max_size as usize;
         let (live, creating, taking) = {
@@ -1456,21 +1515,23 @@ impl<'a> Interp<'a> {
         }
     }
 
-    fn at_park(&mut self) {
+    pub(crate) fn at_park(&mut self) {
         self.check_always("at a park");
     }
 
-    fn after_step(&mut self) {
+    pub(crate) fn after_step(&mut self) {
         self.check_always("after a step");
         if self.violation.is_some() {
             return;
         }
         if self.quiescent() {
             self.check_quiescent("after a step");
+        } else {
+            self.c07_not_quiescent();
         }
     }
 
-    fn check_quiescent(&mut self, at: &str) {
+    pub(crate) fn check_quiescent(&mut self, at: &str) {
         let Some(sn) = self.snapshot() else { return };
         let Some(st) = self.status() else { return };
         let (waiting, gated) = self.classify_pending();
@@ -1525,7 +1586,8 @@ impl<'a> Interp<'a> {
                     ),
                 );
             }
-        } else {
+        }
+        if !self.close_started {
             self.c07_quiescent(at, &sn, waiting.len(), gated.len());
         }
         // C11: exact at rest (no operation in progress: nobody inside a manager / hook call)
@@ -1562,7 +1624,7 @@ impl<'a> Interp<'a> {
     }
 
     /// C06: what a closed pool looks like at quiescence
-    fn check_closed_rest(&mut self, at: &str, sn: &ManagedSnapshot, st: &Status) {
+    pub(crate) fn check_closed_rest(&mut self, at: &str, sn: &ManagedSnapshot, st: &Status) {
         let idle_truth = self.world.w().idle_truth();
         if sn.idle != 0 || !idle_truth.is_empty() {
             self.flag(
@@ -1585,7 +1647,7 @@ impl<'a> Interp<'a> {
 
     // ------------------------------------------------------------ end of history
 
-    fn poll_woken_fixpoint(&mut self) {
+    pub(crate) fn poll_woken_fixpoint(&mut self) {
         for _ in 0..200 {
             if self.violation.is_some() || self.inconclusive.is_some() {
                 return;
@@ -1601,7 +1663,7 @@ impl<'a> Interp<'a> {
         }
     }
 
-    fn finish(&mut self) {
+    pub(crate) fn finish(&mut self) {
         self.note("finish: resume parked operations".into());
         while !self.parked.is_empty() && self.violation.is_none() && self.inconclusive.is_none() {
             self.resume(0, None);
@@ -1652,7 +1714,7 @@ impl<'a> Interp<'a> {
     }
 
     /// capacity probe through the public API only
-    fn probe(&mut self) {
+    pub(crate) fn probe(&mut self) {
         let Some(pool) = self.pool.clone() else { return };
         let limit = self.effective_limit();
         let zero = Timeouts {
@@ -1664,7 +1726,11 @@ impl<'a> Interp<'a> {
         let mut got: Vec<PObject> = vec![];
         let mut results: Vec<String> = vec![];
         let waker = Waker::from(WakeFlag::new());
-        for _ in 0..limit + 1 {
+        let extra = if self.ctx.prop == "C07" { self.c07.d_prev.max(0) as usize } else { 0 };
+        for _ in 0..limit + 1 + extra {
+            if results.last().map(|r: &String| r != "Ok").unwrap_or(false) {
+                break;
+            }
             let p2 = pool.clone();
             let mut fut: GetFut = Box::pin(async move { p2.timeout_get(&zero).await });
             let r = self.sched.run_inline(op, || {
@@ -1726,7 +1792,7 @@ impl<'a> Interp<'a> {
         self.drain_flags();
     }
 
-    fn nontrivial(&mut self) {
+    pub(crate) fn nontrivial(&mut self) {
         let prop = self.ctx.prop.as_str();
         let max = self.case.cfg.max_size;
         let faults = self.world.w().faults_seen > 0;
@@ -1734,16 +1800,28 @@ impl<'a> Interp<'a> {
             "C01" => self.saw_full && max >= 1 && (faults || self.saw_cancel || self.overlap),
             "C02" => (self.saw_fault_get || self.saw_cancel) && (self.saw_full || self.saw_waiter_at_quiescence),
             "C11" => self.rest_after_event,
+            "C07" => self.c07.shrink_with_out || self.c07.grow_with_waiters || self.c07.shrink_then_grow,
+            "C03" => self.c03_nt,
+            "C04" => self.world.w().labels.iter().any(|l| l == "get:with-rejects"),
+            "C06" => self.c06_close_step.map(|c| c + 1 < self.case.steps.len()).unwrap_or(false),
+            "C08" => self.world.w().c08_nt,
+            "C09" => {
+                let w = self.world.w();
+                self.labels.iter().any(|l| l == "retain:proper-subset")
+                    || w.c09_take_then_get
+                    || w.c09_released_by_shrink_or_close
+            }
+            "C13" => self.world.w().objs.iter().any(|o| o.handouts >= 3),
             _ => self.n_steps_run > 0,
         };
         self.nt = self.nt || self.nt_extra();
     }
 
-    fn nt_extra(&self) -> bool {
+    pub(crate) fn nt_extra(&self) -> bool {
         false
     }
 
-    fn teardown(&mut self) {
+    pub(crate) fn teardown(&mut self) {
         // never leave parked threads behind
         while !self.parked.is_empty() {
             let p = self.parked.remove(0);
